@@ -265,6 +265,23 @@ def _p_min(dec, a, b):
     return (a if c else b) if isinstance(c, bool) else z3.If(c, sym.toz(a), sym.toz(b))
 
 
+_orig_div = jx.ELEMENTWISE['div']
+
+
+def _div_pruned(ctx, P, iv):
+    """0 / y -> 0 when the hypotheses imply y != 0 (only in pruning contexts)"""
+    dec = getattr(ctx, 'decide', None)
+    if dec is None:
+        return _orig_div(ctx, P, iv)
+
+    def d(a, b):
+        if sym.num(a) and a == 0 and sym.isz(b) and dec(b != 0) is True:
+            return 0.0
+        return _orig_div(ctx, P, [jx.lift(a), jx.lift(b)])[()]
+    return jx.ew(d, *iv)
+
+
+jx.ELEMENTWISE['div'] = _div_pruned
 jx.ELEMENTWISE['abs'] = _pruned('abs', _p_abs)
 jx.ELEMENTWISE['sign'] = _pruned('sign', _p_sign)
 jx.ELEMENTWISE['max'] = _pruned('max', _p_max)
@@ -934,7 +951,7 @@ CUT_NOTE = ('cut lemma (DESIGN.md section 4) inside eigen_sym33_unit where state
             'Replays run the unmodified eigen_sym33_unit.')
 
 
-def _eig_case(h, label, npar, family, N=None, sampler=None, which='unit', hyp=None):
+def _eig_case(h, label, npar, family, N=None, sampler=None, which='unit', hyp=None, prune_ms=150):
     """trace the REAL eigen_sym33_unit on A = family(p). N(p) (optional): the normalised member; while TRACING the inner call of
     eigen_sym33_non_unit is made on N(p) and its actual argument is returned as an extra output for the lemma."""
     T = TM()
@@ -960,7 +977,7 @@ def _eig_case(h, label, npar, family, N=None, sampler=None, which='unit', hyp=No
     ctx = jx.Ctx()
     if hyp is not None:
         ctx.hyps = [sym.tob(x) for x in hyp(list(sym.sym_array('p', (npar,))))]
-        ctx.decide = Pruner(ctx, ctx.hyps)
+        ctx.decide = Pruner(ctx, ctx.hyps, timeout_ms=prune_ms)
     return Case(h, fn, dict(p=ex), sampler=sampler, label=label, jit=False, ctx=ctx)
 
 
@@ -1092,3 +1109,70 @@ def prove_coi(case, name, spec, cap=60, order=('core', 'nlsat')):
         base = list(assumes) + hyps + relevant_side(case.ctx, goal_terms)
         recs.append(case.h.prove('%s.%s' % (name, atom.name), base, atom, inputs=case.inp, concrete=concrete, cap=cap, order=order))
     return recs
+
+
+E_EQUI = onp.diag([-1.0, 0.0, 1.0])
+QMIN = 1e-9
+
+
+def _o7_shifted(h, tag, E, signs, qrange='generic', cap=60):
+    """two-parameter family A = a*I + g*E (E a unit pure shear or diag(-1,0,1): |A|_inf = |a| + |g|), one case per sign pattern;
+    normalised member N = sa (1-q) I + sg q E with q = |g| / (|a| + |g|)"""
+    for sa, sg in signs:
+        name = '%s[a%s0,g%s0%s]' % (tag, '>' if sa > 0 else '<', '>' if sg > 0 else '<', '' if qrange == 'generic' else ',tiny_q')
+
+        def hyp(p, sa=sa, sg=sg):
+            qb = [v_le(QMIN, p[2])] if qrange == 'generic' else [v_lt(0.0, p[2]), v_le(p[2], QMIN)]
+            return [v_lt(0.0, v_mul(sa, p[0])), v_lt(0.0, v_mul(sg, p[1]))] + qb + \
+                [v_eq_replay_tol(v_mul(p[2], v_add(v_mul(sa, p[0]), v_mul(sg, p[1]))), v_mul(sg, p[1]))]
+
+        def smp(rng, sa=sa, sg=sg):
+            a, g = rng.uniform(0.2, 3), (rng.uniform(0.1, 2) if qrange == 'generic' else rng.uniform(1e-12, 1e-10))
+            return [onp.array([sa * a, sg * g, g / (a + g)])]
+        c = _eig_case(h, name, 3, lambda p, E=E: p[0] * jnp.eye(3) + p[1] * jnp.asarray(E),
+                      N=lambda p, E=E, sa=sa, sg=sg: sa * (1.0 - p[2]) * jnp.eye(3) + sg * p[2] * jnp.asarray(E), sampler=smp, hyp=hyp)
+
+        def Ns(p, E=E, sa=sa, sg=sg):
+            return [[v_add(v_mul(v_sub(1.0, p[2]), sa if x == y else 0.0), v_mul(p[2], float(sg * E[x, y]))) for y in range(3)] for x in range(3)]
+        prove_coi(c, name, lambda i, o, hyp=hyp, Ns=Ns: (hyp(list(i['p'])), _eig_atoms(i, o, Nspec=Ns, per_entry=True, normalised=True)), cap=cap)
+
+
+SHIFT_BOUNDS = ('shifted families: A = a*I + g*E, a != 0, g != 0, one case per sign pattern of (a, g), q = |g|/(|a|+|g|) >= 1e-9 (q is an extra '
+                'input tied to (a, g) by the hypothesis q (|a|+|g|) = |g|); branch conditions implied by the hypotheses are folded while the '
+                'jaxpr is interpreted (Pruner); reconstruction is stated on the normalised tensor + two scaling lemmas (see CUT_NOTE)')
+
+
+@obligation(P, 'O7.eigen_sym33_on_families_shifted_shear', cap=300)
+def o7b(h):
+    """the REAL eigen_sym33_unit on the two-parameter family a*I + g*E, E the in-plane pure shear (xy; thorough: also xz, yz):
+    isotropic part plus pure shear, every a != 0, g != 0 with |g| >= 1e-9 (|a| + |g|)"""
+    _o7_meta(h)
+    h.bounds(SHIFT_BOUNDS, 'tolerances 1e-9 (normalised reconstruction, orthonormality)')
+    h.outside('0 < q < 1e-9 (nearly isotropic: the isotropic-fallback switch c2 < c2tol is then undecided)' if not h.thorough() else
+              'nearly isotropic members 0 < q <= 1e-9 are a separate case in the thorough tier (xy plane)')
+    allsigns = [(1.0, 1.0), (1.0, -1.0), (-1.0, 1.0), (-1.0, -1.0)]
+    for plane in (('xy', 'xz', 'yz') if h.thorough() else ('xy',)):
+        _o7_shifted(h, 'aI_plus_shear_%s' % plane, E_PLANE[plane], allsigns)
+
+
+@obligation(P, 'O7.eigen_sym33_on_families_equispaced', cap=300)
+def o7c(h):
+    """the REAL eigen_sym33_unit on the two-parameter family a*I + g*diag(-1,0,1) (equally spaced eigenvalues: the branch rr = 0 of the
+    trigonometric largest-eigenvalue formula), every a != 0, g != 0 with |g| >= 1e-9 (|a| + |g|); and g*diag(-1,0,1) alone"""
+    _o7_meta(h)
+    h.bounds(SHIFT_BOUNDS, 'tolerances 1e-9 (normalised reconstruction, orthonormality)')
+    _o7_shifted(h, 'aI_plus_equispaced', E_EQUI, [(1.0, 1.0), (1.0, -1.0), (-1.0, 1.0), (-1.0, -1.0)])
+    for sgn, sg in (('g>0', 1.0), ('g<0', -1.0)):
+        c = _eig_case(h, 'equispaced[%s]' % sgn, 1, lambda p: p[0] * jnp.asarray(E_EQUI), N=lambda p, sg=sg: jnp.asarray(sg * E_EQUI),
+                      sampler=lambda rng, sg=sg: [onp.array([sg * rng.uniform(0.1, 3.0)])])
+        c.prove('equispaced[%s]' % sgn, lambda i, o, sg=sg: ([v_lt(0.0, v_mul(sg, list(i['p'])[0]))],
+                                                           _eig_atoms(i, o, Nspec=lambda p: [[float(sg * E_EQUI[a, b]) for b in range(3)] for a in range(3)])),
+                order=('nlsat', 'core'), denoms=False, cap=60)
+
+
+@obligation(P, 'O7.eigen_sym33_on_families_nearly_isotropic', tiers=('thorough',), cap=600)
+def o7d(h):
+    """as O7...shifted_shear (xy) for the nearly isotropic members 0 < q <= 1e-9, where the isotropic fallback may or may not be taken"""
+    _o7_meta(h)
+    h.bounds(SHIFT_BOUNDS.replace('>= 1e-9', 'in (0, 1e-9]'))
+    _o7_shifted(h, 'aI_plus_shear_xy', E_PLANE['xy'], [(1.0, 1.0), (-1.0, -1.0)], qrange='tiny', cap=120)
